@@ -147,6 +147,41 @@ def c26_rank_provider_forgets_subclasses():
     g.GeneratorProvider._get_generators_for = functools.lru_cache(maxsize=1024)(_get_generators_for)
 
 
+def c26_edge_skips_clear_when_already_reachable():
+    """add_subclass_edge only invalidates the caches when reachability changes (a shortcut edge changes distances only)."""
+    import networkx as nx
+
+    from pynguin.analyses import typesystem as t
+
+    def add_subclass_edge(self, *, super_class, sub_class):
+        reachable = super_class in self._graph and sub_class in self._graph and nx.has_path(self._graph, super_class, sub_class)
+        self._graph.add_edge(super_class, sub_class)
+        if reachable:
+            return
+        for name in ("get_subclasses", "get_superclasses", "is_subclass", "is_subtype", "is_maybe_subtype", "subtype_distance"):
+            getattr(t.TypeSystem, name).cache_clear()
+
+    t.TypeSystem.add_subclass_edge = add_subclass_edge
+
+
+def c26_edge_never_clears():
+    from pynguin.analyses import typesystem as t
+
+    def add_subclass_edge(self, *, super_class, sub_class):
+        self._graph.add_edge(super_class, sub_class)
+
+    t.TypeSystem.add_subclass_edge = add_subclass_edge
+
+
+def c26_add_generator_does_not_clear():
+    import pynguin.analyses.module as m
+
+    def add_generator(self, generator):
+        self.generator_provider.add(generator)
+
+    m.ModuleTestCluster.add_generator = add_generator
+
+
 def _patch_module_fn(name, make):
     import pynguin.analyses.module as m
 
@@ -222,6 +257,9 @@ BREAKS = {
         "new lru_cache on GeneratorProvider.get_all_types": c26_new_cache_on_get_all_types,
         "random provider checks is_maybe_subtype in the wrong direction": c26_random_provider_wrong_direction,
         "rank provider drops generators further than one subclass step": c26_rank_provider_forgets_subclasses,
+        "add_subclass_edge keeps the caches when the subclass was already reachable (shortcut edge)": c26_edge_skips_clear_when_already_reachable,
+        "add_subclass_edge never clears the type-system caches": c26_edge_never_clears,
+        "add_generator does not clear the provider caches": c26_add_generator_does_not_clear,
     },
     "C27": {
         "imported functions marked under test": c27_imported_functions_under_test,
@@ -235,7 +273,7 @@ BREAKS = {
 MODULES = {"C25": "checks.c25_subtyping", "C26": "checks.c26_generators", "C27": "checks.c27_cluster"}
 SPECS = {
     "C25": [{"name": "directed", "seed": 0}],
-    "C26": [{"name": "directed", "seed": 0}, {"name": "random", "seed": 0, "part": 0, "n": 3}],
+    "C26": [{"name": "directed", "seed": 0}, {"name": "directed-edges", "seed": 0}, {"name": "random", "seed": 0, "part": 0, "n": 3}],
     "C27": [{"name": "directed", "seed": 0}, {"name": "directed-groups", "seed": 0}],
 }
 
